@@ -1,5 +1,4 @@
 import ImathVerif.Lemmas.C09FrameLemmas
-import ImathVerif.Lemmas.C09NextFrameTree
 /-!
 Helper lemmas for C09, third part: lastFrame / nextFrame.
 -/
@@ -76,48 +75,27 @@ theorem rodrigues_align {len : V3 α → α} (hlen : LenSpec len) {f g : V3 α} 
   · field_simp
     linear_combination (L ^ 2 * g3) * hf
 
-theorem setAxisAngle_isFrame (tmin : α) (sqrt sin cos : α → α) (hlen : LenSpec (Gen.V3.length tmin sqrt))
-    (hsc : ∀ x, sin x ^ 2 + cos x ^ 2 = 1) (m0 : M44 α) (axis : V3 α) (angle : α) (h : Gen.V3.length tmin sqrt axis ≠ 0) :
-    IsFrame (Gen.M44.setAxisAngle tmin sqrt sin cos m0 axis angle) ∧
-      row3 (Gen.M44.setAxisAngle tmin sqrt sin cos m0 axis angle) = ⟨0, 0, 0⟩ := by
-  rw [setAxisAngle_eq tmin sqrt sin cos m0 axis angle h]
-  exact ⟨⟨isRot_axisAngle (nrm_unit hlen h) (hsc angle), isAffine_frameM44 _ _ _ _⟩, rfl⟩
-
 theorem vecMul_rows3 (p r0 r1 r2 : V3 α) :
     p.toVec ᵥ* rows3 r0 r1 r2 = (vadd (vadd (smul p.x r0) (smul p.y r1)) (smul p.z r2)).toVec := by
   ext j; fin_cases j <;>
     simp [rows3, V3.toVec, vadd, smul, Matrix.vecMul, dotProduct, Fin.sum_univ_three]
 
-/-- the rotation `nextFrame` applies to the axes of the previous frame -/
-def nextFrameRot (tmin : α) (sqrt sin cos acos : α → α) (ti tj : V3 α) : Matrix (Fin 3) (Fin 3) α :=
-  let len := Gen.V3.length tmin sqrt
-  let fi : V3 α := ⟨ti.x / len ti, ti.y / len ti, ti.z / len ti⟩
-  let fj : V3 α := ⟨tj.x / len tj, tj.y / len tj, tj.z / len tj⟩
-  let d0 := dot fi fj
-  let d := if 1 < d0 then 1 else if d0 < -1 then -1 else d0
-  if ¬ len ti = 0 ∧ ¬ len tj = 0 ∧ ¬ len (cross fi fj) = 0 ∧ ¬ acos d = 0 then
-    rot3 (Gen.M44.setAxisAngle tmin sqrt sin cos M44.identity (cross fi fj) (acos d))
-  else 1
-
-/-- ALL paths of `nextFrame`: an orthonormal right-handed previous frame with origin `pi` is taken to an orthonormal
-right-handed frame with origin `pj`, its axes turned by the rotation `nextFrameRot` -/
-theorem nextFrame_isFrame (tmin : α) (sqrt sin cos acos : α → α) (hlen : LenSpec (Gen.V3.length tmin sqrt))
-    (hsc : ∀ x, sin x ^ 2 + cos x ^ 2 = 1) (Mi : M44 α) (pi pj ti tj : V3 α) (hMi : IsFrame Mi) (hpi : row3 Mi = pi) :
-    IsFrame (Gen.Frame.nextFrame tmin sqrt sin cos acos Mi pi pj ti tj).1 ∧
-      row3 (Gen.Frame.nextFrame tmin sqrt sin cos acos Mi pi pj ti tj).1 = pj ∧
-      rot3 (Gen.Frame.nextFrame tmin sqrt sin cos acos Mi pi pj ti tj).1 = rot3 Mi * nextFrameRot tmin sqrt sin cos acos ti tj ∧
-      IsRot (nextFrameRot tmin sqrt sin cos acos ti tj) := by
-  have h := nextFrame_toMat tmin sqrt sin cos acos Mi pi pj ti tj
+/-- ALL paths of `nextFrame`: if the result is `Mi * nextFrameStep …` (which is what the extracted tree computes), an orthonormal
+right-handed previous frame with origin `pi` is taken to an orthonormal right-handed frame with origin `pj`, its axes turned by the
+rotation `nextFrameRot` -/
+theorem nextFrameStep_isFrame {len : V3 α → α} (sin cos acos : α → α) (hlen : LenSpec len)
+    (hsc : ∀ x, sin x ^ 2 + cos x ^ 2 = 1) (Mi R : M44 α) (pi pj ti tj : V3 α) (hMi : IsFrame Mi) (hpi : row3 Mi = pi)
+    (h : R.toMat = Mi.toMat * nextFrameStep len sin cos acos pi pj ti tj) :
+    IsFrame R ∧ row3 R = pj ∧ rot3 R = rot3 Mi * nextFrameRot len sin cos acos ti tj ∧ IsRot (nextFrameRot len sin cos acos ti tj) := by
   simp only [nextFrameStep] at h
   simp only [nextFrameRot]
-  set fi : V3 α := ⟨ti.x / Gen.V3.length tmin sqrt ti, ti.y / Gen.V3.length tmin sqrt ti, ti.z / Gen.V3.length tmin sqrt ti⟩ with hfi
-  set fj : V3 α := ⟨tj.x / Gen.V3.length tmin sqrt tj, tj.y / Gen.V3.length tmin sqrt tj, tj.z / Gen.V3.length tmin sqrt tj⟩ with hfj
+  set fi : V3 α := ⟨ti.x / len ti, ti.y / len ti, ti.z / len ti⟩ with hfi
+  set fj : V3 α := ⟨tj.x / len tj, tj.y / len tj, tj.z / len tj⟩ with hfj
   set dd : α := (if 1 < dot fi fj then (1 : α) else if dot fi fj < -1 then -1 else dot fi fj) with hdd
-  by_cases hc : ¬Gen.V3.length tmin sqrt ti = 0 ∧ ¬Gen.V3.length tmin sqrt tj = 0 ∧
-      ¬Gen.V3.length tmin sqrt (cross fi fj) = 0 ∧ ¬acos dd = 0
+  by_cases hc : ¬len ti = 0 ∧ ¬len tj = 0 ∧ ¬len (cross fi fj) = 0 ∧ ¬acos dd = 0
   · rw [if_pos hc] at h ⊢
     obtain ⟨_, _, ha, _⟩ := hc
-    have hR := setAxisAngle_isFrame tmin sqrt sin cos hlen hsc M44.identity (cross fi fj) (acos dd) ha
+    have hR := axisAngleM44_isFrame hlen (hsc (acos dd)) (axis := cross fi fj) ha
     obtain ⟨h1, h2, h3⟩ := frame_mul_TRT hMi hR.1 hR.2 h
     refine ⟨h1, ?_, h2, hR.1.1⟩
     rw [h3, hpi]
@@ -132,27 +110,11 @@ theorem nextFrame_isFrame (tmin : α) (sqrt sin cos acos : α → α) (hlen : Le
     obtain ⟨x', y', z'⟩ := pj
     simp [vadd, vsub]
 
-/-- the tangents handed back by `nextFrame` (they are non-const references): normalised when both are non-zero, else untouched -/
-theorem nextFrame_tangents (tmin : α) (sqrt sin cos acos : α → α) (Mi : M44 α) (pi pj ti tj : V3 α) :
-    (Gen.Frame.nextFrame tmin sqrt sin cos acos Mi pi pj ti tj).2 =
-      if ¬ Gen.V3.length tmin sqrt ti = 0 ∧ ¬ Gen.V3.length tmin sqrt tj = 0 then
-        (⟨ti.x / Gen.V3.length tmin sqrt ti, ti.y / Gen.V3.length tmin sqrt ti, ti.z / Gen.V3.length tmin sqrt ti⟩,
-         ⟨tj.x / Gen.V3.length tmin sqrt tj, tj.y / Gen.V3.length tmin sqrt tj, tj.z / Gen.V3.length tmin sqrt tj⟩)
-      else (ti, tj) := by
-  obtain ⟨ax, ay, az⟩ := ti
-  obtain ⟨bx, by', bz⟩ := tj
-  simp only [Gen.Frame.nextFrame]
-  split_ifs <;> first | rfl | (exfalso; simp_all; done)
-
-/-- what is assumed of `acos` (with `sin`, `cos`) for the alignment statement; real `arccos` satisfies it -/
-def AcosSpec (sin cos acos : α → α) : Prop :=
-  (∀ x, sin x ^ 2 + cos x ^ 2 = 1) ∧ cos 0 = 1 ∧ ∀ x, -1 ≤ x → x ≤ 1 → cos (acos x) = x ∧ 0 ≤ sin (acos x)
-
 /-- non-zero, non-parallel tangents: the rotation applied by `nextFrame` takes the direction of `ti` to the direction of `tj` -/
-theorem nextFrameRot_align (tmin : α) (sqrt sin cos acos : α → α) (hlen : LenSpec (Gen.V3.length tmin sqrt))
+theorem nextFrameRot_align {len : V3 α → α} (sin cos acos : α → α) (hlen : LenSpec len)
     (hac : AcosSpec sin cos acos) (ti tj : V3 α) (hi : ti ≠ ⟨0, 0, 0⟩) (hj : tj ≠ ⟨0, 0, 0⟩) (hij : cross ti tj ≠ ⟨0, 0, 0⟩) :
-    (nrm (Gen.V3.length tmin sqrt) ti).toVec ᵥ* nextFrameRot tmin sqrt sin cos acos ti tj
-      = (nrm (Gen.V3.length tmin sqrt) tj).toVec := by
+    (nrm len ti).toVec ᵥ* nextFrameRot len sin cos acos ti tj
+      = (nrm len tj).toVec := by
   obtain ⟨hsc, hcos0, hacos⟩ := hac
   have hli := len_ne_zero hlen hi
   have hlj := len_ne_zero hlen hj
@@ -161,20 +123,20 @@ theorem nextFrameRot_align (tmin : α) (sqrt sin cos acos : α → α) (hlen : L
   have hf := nrm_unit hlen hli
   have hg := nrm_unit hlen hlj
   -- a = f × g is a positive multiple of ti × tj
-  have ha : cross (nrm (Gen.V3.length tmin sqrt) ti) (nrm (Gen.V3.length tmin sqrt) tj) ≠ ⟨0, 0, 0⟩ := by
+  have ha : cross (nrm len ti) (nrm len tj) ≠ ⟨0, 0, 0⟩ := by
     rw [nrm_eq_smul hli, nrm_eq_smul hlj, cross_smul_smul]
     exact smul_ne_zero' (mul_ne_zero (inv_ne_zero hli) (inv_ne_zero hlj)) hij
   have hla := len_ne_zero hlen ha
-  have hlag := lagrange (nrm (Gen.V3.length tmin sqrt) ti) (nrm (Gen.V3.length tmin sqrt) tj)
+  have hlag := lagrange (nrm len ti) (nrm len tj)
   rw [hf, hg] at hlag
-  have hpos : 0 < dot (cross (nrm (Gen.V3.length tmin sqrt) ti) (nrm (Gen.V3.length tmin sqrt) tj))
-      (cross (nrm (Gen.V3.length tmin sqrt) ti) (nrm (Gen.V3.length tmin sqrt) tj)) :=
+  have hpos : 0 < dot (cross (nrm len ti) (nrm len tj))
+      (cross (nrm len ti) (nrm len tj)) :=
     lt_of_le_of_ne (dot_self_nonneg _) (Ne.symm (dot_ne_zero ha))
-  set d := dot (nrm (Gen.V3.length tmin sqrt) ti) (nrm (Gen.V3.length tmin sqrt) tj) with hd
+  set d := dot (nrm len ti) (nrm len tj) with hd
   have hd1 : d ≤ 1 := by nlinarith [sq_nonneg (d - 1), sq_nonneg (d + 1)]
   have hd2 : -1 ≤ d := by nlinarith [sq_nonneg (d - 1), sq_nonneg (d + 1)]
   obtain ⟨hc, hs0⟩ := hacos d hd2 hd1
-  have hs : sin (acos d) = Gen.V3.length tmin sqrt (cross (nrm (Gen.V3.length tmin sqrt) ti) (nrm (Gen.V3.length tmin sqrt) tj)) := by
+  have hs : sin (acos d) = len (cross (nrm len ti) (nrm len tj)) := by
     apply eq_of_sq_eq hs0 (hlen _).2
     rw [len_sq hlen, hlag]
     have := hsc (acos d)
@@ -192,43 +154,12 @@ theorem nextFrameRot_align (tmin : α) (sqrt sin cos acos : α → α) (hlen : L
   have hclamp : (if 1 < d then (1 : α) else if d < -1 then -1 else d) = d := by
     rw [if_neg (not_lt.mpr hd1), if_neg (not_lt.mpr hd2)]
   simp only [nextFrameRot, ← hnrm_i, ← hnrm_j, ← hd, hclamp]
-  rw [if_pos ⟨hli, hlj, hla, hr⟩, setAxisAngle_eq _ _ _ _ _ _ _ hla, rot3_frameM44, hs, hc]
+  rw [if_pos ⟨hli, hlj, hla, hr⟩]
+  unfold axisAngleM44
+  rw [rot3_frameM44, hs, hc]
   have hal := rodrigues_align hlen hf ha
   rw [← axisAngle_apply] at hal
   rw [vecMul_rows3, hal]
-
-/-! ### lastFrame, addOffset -/
-
-theorem lastFrame_toMat (Mi : M44 α) (pi pj : V3 α) :
-    (Gen.Frame.lastFrame Mi pi pj).toMat = Mi.toMat * transMat (vsub pj pi) := by
-  ext i j; fin_cases i <;> fin_cases j <;>
-    simp [Gen.Frame.lastFrame, transMat, vsub, M44.toMat, Matrix.mul_apply, Fin.sum_univ_four] <;> ring
-
-theorem transMat_eq_setTranslation (m0 : M44 α) (v : V3 α) : transMat v = (Gen.M44.setTranslation m0 v).toMat := by
-  ext i j; fin_cases i <;> fin_cases j <;> simp [Gen.M44.setTranslation, transMat, M44.toMat]
-
-/-- the degrees→radians factor used by `addOffset`: the double nearest to π/180, as an exact rational -/
-def degToRad : α := (5030569068109113 : α) / 288230376151711744
-
-set_option maxHeartbeats 1000000 in
-theorem addOffset_toMat (sin cos : α → α) (inMat ref m0 m1 : M44 α) (tOffset rOffset sOffset : V3 α) :
-    (Gen.Frame.addOffset sin cos inMat tOffset rOffset sOffset ref).toMat =
-      (Gen.M44.setScaleV m0 sOffset).toMat
-        * ((Gen.M44.setEulerAngles sin cos m1 (smul degToRad rOffset)).toMat * transMat tOffset)
-        * inMat.toMat * ref.toMat := by
-  obtain ⟨rx, ry, rz⟩ := rOffset
-  simp only [smul, degToRad]
-  have e : ∀ x : α, x * ((5030569068109113 : α) / 288230376151711744) = (5030569068109113 : α) / 288230376151711744 * x :=
-    fun x => mul_comm _ _
-  generalize hsx : sin ((5030569068109113 : α) / 288230376151711744 * rx) = sx
-  generalize hsy : sin ((5030569068109113 : α) / 288230376151711744 * ry) = sy
-  generalize hsz : sin ((5030569068109113 : α) / 288230376151711744 * rz) = sz
-  generalize hcx : cos ((5030569068109113 : α) / 288230376151711744 * rx) = cx
-  generalize hcy : cos ((5030569068109113 : α) / 288230376151711744 * ry) = cy
-  generalize hcz : cos ((5030569068109113 : α) / 288230376151711744 * rz) = cz
-  ext i j; fin_cases i <;> fin_cases j <;>
-    simp [Gen.Frame.addOffset, Gen.M44.setScaleV, Gen.M44.setEulerAngles, transMat, M44.toMat, Matrix.mul_apply,
-      Fin.sum_univ_four, e, hsx, hsy, hsz, hcx, hcy, hcz] <;> ring
 
 end Next
 end ImathVerif.C09
